@@ -9,13 +9,21 @@ half-words x a second half-word menu, x86 prefix menu x {one-byte map, 0F map} x
 tail menu.  Every element miasm decodes (mn.dis(bytes, mode) returns) is taken once per distinct decoded byte string.
 
 Oracle (the property statement).  For a decoded instruction of length L exactly the L bytes are handed to
-`llvm-mc --disassemble` as one *atomic block* `[0x.. 0x..]` (the reference decoder cannot read past the block; after
-an undecodable byte the rest of a block is skipped).  Every case block is followed by a sentinel block (one fixed
-instruction of the target) so that stdout, which carries no positions, is cut into per-case segments; stderr carries
-`line:col` per diagnostic.  The case agrees iff its segment holds exactly one instruction and no
-"invalid instruction encoding" diagnostic was issued for its line: then the reference decoded one valid instruction
-that consumed exactly L bytes.  ("potentially undefined instruction encoding" - LLVM's SoftFail for UNPREDICTABLE
-operand combinations - still yields a decoded instruction and is counted, not demanded.)
+`llvm-mc --disassemble -show-encoding` as one *atomic block* `[0x.. 0x..]` (the reference decoder cannot read past the
+block; after an undecodable byte the rest of a block is skipped).  Every case block is followed by a sentinel block
+(one fixed instruction of the target, three candidates per target, never one whose bytes occur in a case of the batch)
+so that stdout, which carries no positions, is cut into per-case segments; the number of segments must equal the number
+of cases (anything else is a harness error, never a verdict); stderr carries `line:col` per diagnostic.  The case
+agrees iff its segment holds exactly one instruction and no "invalid instruction encoding" diagnostic was issued for
+its line: then the reference decoded one valid instruction that consumed exactly L bytes.
+  * "potentially undefined instruction encoding" (LLVM's SoftFail for UNPREDICTABLE operand combinations) still yields
+    a decoded instruction: counted (`ref_soft_fail`), not demanded.
+  * x86: LLVM returns some prefix bytes as instructions of their own (a leading LOCK always, XACQUIRE/XRELEASE, REX64,
+    DATA16 ...; llvm-mc prints them on separate lines).  Leading prefix lines are joined with the instruction that follows
+    them; prefix lines with nothing behind them are no instruction.
+  * Thumb: LLVM keeps the IT-block state across blocks; four `mov r8, r8` before every sentinel drain it, so that every
+    case is decoded in the same clean state whatever precedes it (replay of a single case gives the same verdict).
+  * big-endian ARM / Thumb / AArch64: LLVM reads instruction units little-endian (BE8), miasm big-endian (BE32): swapped.
 A disagreeing case is classified in a second reference run on the prefixes raw[:n] (n = 1..15 for x86, {2, 4} for
 Thumb): the smallest n that gives one valid instruction is the reference length (kind `length-differs`), none gives
 kind `ref-invalid`.
@@ -23,7 +31,6 @@ kind `ref-invalid`.
 Signature = target | kind | miasm mnemonic | opcode class (see opclass()).
 """
 import collections
-import gc
 import re
 import shutil
 import subprocess
@@ -99,7 +106,7 @@ BOUNDS = {
         "curated": TARGETS, "bitflip": [], "bytesub": [],
         "cube": g.cube_dims({"fixed32": {"lo": 1, "hi": 0, "stride": 8}, "thumb": {"ext": 1, "stride": 8},
                              "x86": {"prefix": 7, "maps": 2, "second": 2, "tail": 1}}, _NAT),
-        "shard": 2048, "bundles": 48,
+        "shard": 2048, "bundles": 8,
     },
     # thorough: complete 16-bit opcode axis x 4 operand half-words (the other byte order: x 1), x86 with the complete
     # ModRM menu (16) x 4 tails.
@@ -109,7 +116,7 @@ BOUNDS = {
             g.cube_dims({"fixed32": {"lo": 4, "hi": 0}, "thumb": {"ext": 4},
                          "x86": {"prefix": 7, "maps": 2, "second": 16, "tail": 4}}, _NAT),
             **g.cube_dims({"fixed32": {"lo": 1, "hi": 0}, "thumb": {"ext": 1}}, _SWP)),
-        "shard": 8192, "bundles": 256,
+        "shard": 8192, "bundles": 48,
     },
 }
 
@@ -154,16 +161,6 @@ def _block(b):
     return "[" + " ".join("0x%02x" % c for c in b) + "]\n"
 
 
-def _sentinel_text(target, sent):
-    key = ("sent", target, sent)
-    if key not in _llvm:
-        out, warns = _run_llvm(target, _block(bytes.fromhex(sent)))
-        if len(out) != 1 or warns:
-            raise RuntimeError("sentinel %s of %s does not decode to one instruction: %r %r" % (sent, target, out, warns))
-        _llvm[key] = out[0]
-    return _llvm[key]
-
-
 def to_ref(target, b):
     """The bytes as the reference decoder must be given them."""
     if LLVM_TARGETS[target][1]:
@@ -176,38 +173,43 @@ def ref_run(target, blocks):
     soft, [instruction texts]); invalid_col = column of the 'invalid instruction encoding' diagnostic or None."""
     if not blocks:
         return []
-    for sent in LLVM_TARGETS[target][2]:
-        sb = bytes.fromhex(sent)
-        if not any(sb in b for b in blocks):
-            break
-    else:
+    usable = [bytes.fromhex(x) for x in LLVM_TARGETS[target][2]]
+    usable = [sb for sb in usable if not any(sb in b for b in blocks)]
+    if not usable:
         if len(blocks) == 1:
             raise RuntimeError("every sentinel candidate of %s occurs in the case %s" % (target, blocks[0].hex()))
         h = len(blocks) // 2
         return ref_run(target, blocks[:h]) + ref_run(target, blocks[h:])
-    stext = _sentinel_text(target, sent)
     nflush = len(FLUSH.get(target, b"")) // 2
-    sline = (_block(FLUSH[target]).rstrip("\n") + " " if nflush else "") + _block(sb)
-    out, warns = _run_llvm(target, "".join(_block(b) + sline for b in blocks))
-    segs = [[]]
-    for l in out:
-        if l == stext:
-            if len(segs[-1]) < nflush:
-                raise RuntimeError("llvm-mc output of %s: flush instructions missing before a sentinel" % target)
-            if nflush:
-                del segs[-1][-nflush:]
-            segs.append([])
-        else:
-            segs[-1].append(l)
-    if len(segs) != len(blocks) + 1 or segs[-1]:
-        raise RuntimeError("llvm-mc output of %s is not aligned with the cases: %d segments for %d cases" % (
-            target, len(segs) - 1, len(blocks)))
+    err = None
+    for sb in usable:
+        sline = (_block(FLUSH[target]).rstrip("\n") + " " if nflush else "") + _block(sb)
+        # line 1 is the sentinel alone (its printed form is read off the output), then 2 lines per case
+        out, warns = _run_llvm(target, _block(sb) + "".join(_block(b) + sline for b in blocks))
+        if not out:
+            raise RuntimeError("llvm-mc printed nothing for %s" % target)
+        stext = out[0]
+        segs = [[]]
+        for l in out[1:]:
+            if l == stext:
+                if nflush:
+                    del segs[-1][-nflush:]
+                segs.append([])
+            else:
+                segs[-1].append(l)
+        if len(segs) == len(blocks) + 1 and not segs[-1]:
+            break
+        # a case printed the same text as the sentinel (another encoding of it): try the next sentinel
+        err = "llvm-mc output of %s is not aligned with the cases: %d segments for %d cases" % (
+            target, len(segs) - 1, len(blocks))
+    else:
+        raise RuntimeError(err)
     inval = {}
     soft = set()
     for line, col, msg in warns:
-        if line % 2 == 0:
+        if line % 2 == 1:
             raise RuntimeError("llvm-mc diagnostic on a sentinel line of %s: %r" % (target, (line, col, msg)))
-        i = (line - 1) // 2
+        i = (line - 2) // 2
         if msg.startswith("invalid instruction encoding"):
             inval.setdefault(i, col)
         elif msg.startswith("potentially undefined"):
@@ -395,7 +397,7 @@ def make_violation(target, raw, L, instr, kind, rl, reftxt):
     b = bytes(raw[:L])
     mnemo = base_mnemonic(target, instr.name)
     sig = "%s|%s|%s|%s" % (target, kind, mnemo, opclass(target, b))
-    ref = "; ".join(x.split("#")[0].split("@")[0].split("//")[0].strip().replace("\t", " ") for x in reftxt) or "-"
+    ref = "; ".join(" ".join(x.split("encoding: [")[0].rstrip(" \t#@/").split()) for x in reftxt) or "-"
     if kind == "ref-invalid":
         what = "%s %s: miasm decodes '%s' (length %d), llvm-mc %s finds no valid instruction there (decoded: %s)" % (
             target, b.hex(), _txt(instr), L, " ".join(LLVM_TARGETS[target][0]), ref)
@@ -463,13 +465,7 @@ def run(ctx):
     tier = "quick" if ctx.quick else "thorough"
     llvm_mc()
     shards = plan(tier)
-    for name in TARGETS:                 # import / warm every architecture and the sentinels before the pool forks
-        deterministic(name)
-        g.decode(name, g.raw_of(name, "curated", g.curated(name)[0]))
-        ref_run(name, [bytes.fromhex(LLVM_TARGETS[name][2][1])])
-    g.quiet()
-    gc.collect()
-    gc.freeze()
+    # no warm-up in the parent: every worker imports the architectures of its own bundles (a bundle holds one family)
     res = [r for rs in ctx.pmap(_work, g.bundles(shards, BOUNDS[tier]["bundles"])) for r in rs]
     bounds = dict(BOUNDS[tier], sizes=g.plan_sizes(BOUNDS[tier], TARGETS),
                   llvm=dict((t, " ".join(LLVM_TARGETS[t][0])) for t in TARGETS))
